@@ -20,6 +20,7 @@ const wedgeMarker = "DEADLOCK-EVIDENCE: all check/inbucket goroutines parked ide
 var goroutineHdr = regexp.MustCompile(`^goroutine (\d+) \[([^\],]+)`)
 
 type gInfo struct {
+	dumper bool // the goroutine that is taking this dump
 	id     string
 	state  string
 	sut    string // innermost inbucket frame
@@ -60,6 +61,9 @@ func parseGoroutines(dump string) []gInfo {
 		if checkFrame.MatchString(l) {
 			cur.check = true
 		}
+		if strings.HasPrefix(l, "verifharness/internal/fw.allStacks") {
+			cur.dumper = true
+		}
 	}
 	return out
 }
@@ -70,8 +74,8 @@ func wedgeSignature(dump string) string {
 	var sig []string
 	blockedInSUT := false
 	for _, g := range parseGoroutines(dump) {
-		if !g.check && !g.hasSUT {
-			continue
+		if g.dumper || (!g.check && !g.hasSUT) {
+			continue // the watchdog's own goroutine is running by definition
 		}
 		if !parkedStates[g.state] {
 			return ""
